@@ -242,6 +242,9 @@ func promotionWrappers(prog *ssa.Program) []*ssa.Function {
 	return out
 }
 
+// InBaseline reports whether the pinned tree has a function of fn's (canonical) name.
+func InBaseline(fn *ssa.Function) bool { return baselineSet[canonName(fn)] }
+
 // canonName is fn.String() with renamed receiver types put back.
 func canonName(fn *ssa.Function) string {
 	if a, ok := FuncAlias[fn]; ok {
